@@ -204,6 +204,9 @@ func c13Values() []namedVal {
 		{"array-empty", rc.Array()}, {"array-self", rc.Val{K: rc.KRaw}}, // array-self is replaced by [label] per cell
 		{"array-absent-label", rc.Array(rc.Int(77))}, {"array-text", rc.Array(rc.Text("x"))}, {"array-bstr", rc.Array(rc.Bytes([]byte{1}))},
 		{"map", rc.Map()}, {"map-claims", rc.Map(rc.E(rc.Int(1), rc.Text("iss")))},
+		{"map-claims-int-iss", rc.Map(rc.E(rc.Int(1), rc.Int(42)))}, {"map-claims-bstr-sub", rc.Map(rc.E(rc.Int(2), rc.Bytes([]byte("s"))))},
+		{"map-claims-times", rc.Map(rc.E(rc.Int(4), rc.Int(1)), rc.E(rc.Int(5), rc.Int(4102444800)), rc.E(rc.Int(6), rc.Int(0)))},
+		{"map-claims-text-exp", rc.Map(rc.E(rc.Int(4), rc.Text("tomorrow")), rc.E(rc.Int(7), rc.Int(7)), rc.E(rc.Text("private"), rc.Array(rc.Int(1))))},
 		{"bool", rc.Bool(true)}, {"null", rc.Null}, {"float", rc.Float(1.5)},
 		{"csig", csig}, {"csig-with-headers", csigAlg}, {"csig-list", rc.Array(csig, csigAlg)}, {"csig-list-3", rc.Array(csig, csig, csig)},
 		{"csig-list-null", rc.Array(rc.Null)}, {"csig-crit-in-unprotected", csigBadInner}, {"csig-empty-signature", csigEmptySig},
@@ -450,6 +453,34 @@ func TestC13_Grid(t *testing.T) {
 		}
 	}
 	stats.ExhaustivePart("one-label-two-spellings", (n-n0)/nsh)
+	// (6) buckets with many parameters (counts around the CBOR head boundaries and well beyond): every one of them
+	// obeys section 3.1, so both directions accept
+	n0 = n
+	for _, ctx := range c13Ctxs {
+		for _, bucket := range []string{"P", "U"} {
+			if (ctx == "protected" && bucket == "U") || (ctx == "unprotected" && bucket == "P") {
+				continue
+			}
+			for _, cnt := range []int{23, 24, 41, 64, 65, 255, 256, 257, 1000, 5000} {
+				m := rc.Map()
+				for i := 0; i < cnt; i++ {
+					if i%3 == 2 {
+						m.M = append(m.M, rc.E(rc.Text(fmt.Sprintf("p%d", i)), rc.Int(int64(i))))
+					} else {
+						m.M = append(m.M, rc.E(rc.Int(int64(1000+i)), rc.Int(int64(i))))
+					}
+				}
+				c := c13Case{Ctx: ctx, Prot: rc.Map(), Unprot: rc.Map(), Cell: fmt.Sprintf("many/%s/%s/%d", ctx, bucket, cnt)}
+				if bucket == "P" {
+					c.Prot = m
+				} else {
+					c.Unprot = m
+				}
+				run(c)
+			}
+		}
+	}
+	stats.ExhaustivePart("many-parameters", (n-n0)/nsh)
 }
 
 // TestC13_Random: conforming generated headers with 0-3 rule-relevant edits.
